@@ -820,6 +820,236 @@ def _lazy_db(edb: dict[str, ast.FunctionDef]) -> dict:
                 fgd_applies_bases=any(_is_call_method(n, 'apply_bases') for n in ast.walk(gf)))
 
 
+# ------------------------------------------------------------------------------------------ several databases
+def _single_assignments(fn: ast.FunctionDef) -> dict[str, ast.AST]:
+    """Locals of fn that are bound exactly once, by a plain `name = value` / `name: T = value`: name -> value."""
+    stores: dict[str, int] = {}
+    for n in ast.walk(fn):
+        if isinstance(n, ast.Name) and isinstance(n.ctx, (ast.Store, ast.Del)):
+            stores[n.id] = stores.get(n.id, 0) + 1
+    for a in list(fn.args.args) + list(fn.args.kwonlyargs) + list(fn.args.posonlyargs):
+        stores[a.arg] = stores.get(a.arg, 0) + 1
+    env: dict[str, ast.AST] = {}
+    for n in ast.walk(fn):
+        if isinstance(n, ast.Assign) and len(n.targets) == 1 and isinstance(n.targets[0], ast.Name) and stores.get(n.targets[0].id) == 1:
+            env[n.targets[0].id] = n.value
+        elif isinstance(n, ast.AnnAssign) and isinstance(n.target, ast.Name) and n.value is not None and stores.get(n.target.id) == 1:
+            env[n.target.id] = n.value
+    return env
+
+
+def _deref(node: ast.AST, env: dict[str, ast.AST], skip: frozenset = frozenset()) -> ast.AST:
+    """node with every load of a single-assignment local replaced by the value it was bound to (recursively)."""
+    import copy
+
+    class R(ast.NodeTransformer):
+        def visit_Name(self, n: ast.Name) -> ast.AST:   # noqa: N802
+            if isinstance(n.ctx, ast.Load) and n.id in env and n.id not in skip:
+                return _deref(env[n.id], env, skip | {n.id})
+            return n
+    return R().visit(copy.deepcopy(node))
+
+
+def _norm_membership(test: ast.AST) -> tuple[str, ast.AST, ast.AST] | None:
+    """`k in d`, `k in d.keys()`, `not k in d`, `k not in d`, `not (k not in d)` -> ('in' | 'notin', k, d)."""
+    neg = False
+    while isinstance(test, ast.UnaryOp) and isinstance(test.op, ast.Not):
+        neg, test = not neg, test.operand
+    if not (isinstance(test, ast.Compare) and len(test.ops) == 1 and isinstance(test.ops[0], (ast.In, ast.NotIn))):
+        return None
+    if isinstance(test.ops[0], ast.NotIn):
+        neg = not neg
+    d = test.comparators[0]
+    if _is_call_method(d, 'keys') and not d.args and not d.keywords:  # type: ignore[attr-defined]
+        d = d.func.value  # type: ignore[attr-defined]
+    return ('notin' if neg else 'in', test.left, d)
+
+
+def _same(a: ast.AST, b: ast.AST) -> bool:
+    return ast.dump(a) == ast.dump(b)
+
+
+def _iter_direction(it: ast.AST, what: str) -> tuple[ast.AST, bool]:
+    """The iterable of a `for` over the list of databases: (list expression, forward?)."""
+    if isinstance(it, ast.Call) and _is(it.func, 'reversed') and len(it.args) == 1 and not it.keywords:
+        inner, fwd = _iter_direction(it.args[0], what)
+        return inner, not fwd
+    if isinstance(it, ast.Subscript) and isinstance(it.slice, ast.Slice):
+        sl = it.slice
+        if sl.lower is None and sl.upper is None and sl.step is not None and _int_expr(sl.step, what) == -1:
+            inner, fwd = _iter_direction(it.value, what)
+            return inner, not fwd
+        if sl.lower is None and sl.upper is None and (sl.step is None or _int_expr(sl.step, what) == 1):
+            return _iter_direction(it.value, what)
+        raise TranslateError(f'{what}: slice of the database list not recognised: {ast.unparse(it)}')
+    if isinstance(it, ast.Call) and isinstance(it.func, ast.Name) and it.func.id in ('list', 'tuple', 'iter') and len(it.args) == 1 and not it.keywords:
+        return _iter_direction(it.args[0], what)
+    return it, True
+
+
+def _is_deepcopy(node: ast.AST) -> ast.AST | None:
+    if isinstance(node, ast.Call) and (_is(node.func, 'deepcopy') or _is(node.func, 'copy.deepcopy')) and len(node.args) == 1 and not node.keywords:
+        return node.args[0]
+    return None
+
+
+def _multi_db(tree: ast.Module) -> dict:
+    """How the LIST of engine databases is used (the model is SM/LazyDbMulti.v):
+      * EntityDef.engine_def: a loop over `_load_engine_db()` that returns `dbase.get_ent(classname)` (deep-copied) of the first
+        database that does not raise KeyError, KeyError after the loop  -> first_hit (False when the loop runs backwards);
+      * FGD.engine_dbase: a loop over `_load_engine_db()` that merges `dbase.get_fgd().entities` into the `entities` of a fresh FGD;
+        what happens to a class name that is already present decides: kept (`if k not in d: d[k] = v`, `if k in d: continue`,
+        `d.setdefault(k, v)`) or overwritten (`d[k] = v`, `d.update(..)`, `d |= ..`); a loop that runs backwards swaps the two.
+        An optional shortcut for a single database (`if len(databases) == 1: return deepcopy(databases[0].get_fgd())`) is accepted;
+      * add_engine_database: where the new database is put (insert(0, ..) = front / append = back) — information."""
+    # ---- EntityDef.engine_def
+    ed = _method(tree, 'EntityDef', 'engine_def')
+    args = [a.arg for a in ed.args.args]
+    if len(args) != 2:
+        raise TranslateError(f'EntityDef.engine_def signature changed: {args}')
+    cn = args[1]
+    env = _single_assignments(ed)
+    body = [st for st in _body(ed) if not (isinstance(st, (ast.Assign, ast.AnnAssign)) and isinstance(
+        st.targets[0] if isinstance(st, ast.Assign) else st.target, ast.Name) and (
+        st.targets[0] if isinstance(st, ast.Assign) else st.target).id in env)]   # type: ignore[union-attr]
+    if not (len(body) == 2 and isinstance(body[0], ast.For) and not body[0].orelse and isinstance(body[0].target, ast.Name)
+            and isinstance(body[1], ast.Raise) and body[1].exc is not None and (_is(body[1].exc, f'KeyError({cn})') or _is(body[1].exc, 'KeyError'))):
+        raise TranslateError('EntityDef.engine_def: `for dbase in <databases>: ...` followed by `raise KeyError(classname)` not recognised')
+    loop = body[0]
+    lst, fwd = _iter_direction(_deref(loop.iter, env), 'EntityDef.engine_def')
+    if not _is(lst, '_load_engine_db()'):
+        raise TranslateError('EntityDef.engine_def: the loop does not run over _load_engine_db(): ' + ast.unparse(lst))
+    dv = loop.target.id  # type: ignore[attr-defined]
+    lb = loop.body
+    ok = False
+    if len(lb) == 1 and isinstance(lb[0], ast.Try) and not lb[0].finalbody and len(lb[0].handlers) == 1:
+        tr = lb[0]
+        h = tr.handlers[0]
+        quiet = all(isinstance(x, (ast.Pass, ast.Continue)) for x in h.body)
+        sts = list(tr.body) + list(tr.orelse)
+        # `return deepcopy(dbase.get_ent(c))`, possibly through a local: `ent = dbase.get_ent(c)` ... `return deepcopy(ent)`
+        env2 = _single_assignments(ed)
+        rets = [x for x in sts if isinstance(x, ast.Return)]
+        others = [x for x in sts if not isinstance(x, ast.Return) and not (
+            isinstance(x, ast.Assign) and len(x.targets) == 1 and isinstance(x.targets[0], ast.Name) and x.targets[0].id in env2)]
+        if (h.type is not None and _is(h.type, 'KeyError') and quiet and len(rets) == 1 and not others and rets[0].value is not None):
+            val = _deref(rets[0].value, env2)
+            inner = _is_deepcopy(val)
+            if inner is not None and _is(inner, f'{dv}.get_ent({cn})'):
+                ok = True
+    if not ok:
+        raise TranslateError('EntityDef.engine_def: loop body is not `try: return deepcopy(dbase.get_ent(classname)) except KeyError: pass`: '
+                             + ast.unparse(loop)[:200])
+    # ---- FGD.engine_dbase
+    eb = _method(tree, 'FGD', 'engine_dbase')
+    env = _single_assignments(eb)
+
+    def is_local_def(st: ast.stmt) -> bool:
+        if isinstance(st, ast.Assign) and len(st.targets) == 1 and isinstance(st.targets[0], ast.Name):
+            return st.targets[0].id in env
+        return isinstance(st, ast.AnnAssign) and isinstance(st.target, ast.Name) and st.target.id in env
+    body = [st for st in _body(eb) if not is_local_def(st)]
+    shortcut = False
+    if body and isinstance(body[0], ast.If):
+        t = _deref(body[0].test, env)
+        sc = body[0]
+        if not ((_is(t, 'len(_load_engine_db()) == 1') or _is(t, '1 == len(_load_engine_db())')) and not sc.orelse and len(sc.body) == 1
+                and isinstance(sc.body[0], ast.Return) and sc.body[0].value is not None):
+            raise TranslateError('FGD.engine_dbase: the leading `if` is not the single-database shortcut: ' + ast.unparse(sc)[:160])
+        inner = _is_deepcopy(_deref(sc.body[0].value, env))
+        if inner is None or not (_is(inner, '_load_engine_db()[0].get_fgd()') or _is(inner, '_load_engine_db()[-1].get_fgd()')):
+            raise TranslateError('FGD.engine_dbase: the single-database shortcut does not return deepcopy(databases[0].get_fgd())')
+        shortcut = True
+        body = body[1:]
+    loops = [st for st in body if isinstance(st, ast.For)]
+    if len(loops) != 1 or loops[0].orelse or not isinstance(loops[0].target, ast.Name):
+        raise TranslateError(f'FGD.engine_dbase: expected one loop over the databases, found {len(loops)}')
+    loop = loops[0]
+    lst, fwd_all = _iter_direction(_deref(loop.iter, env), 'FGD.engine_dbase')
+    if not _is(lst, '_load_engine_db()'):
+        raise TranslateError('FGD.engine_dbase: the loop does not run over _load_engine_db(): ' + ast.unparse(lst))
+    dv = loop.target.id
+    rest = [st for st in body if st is not loop]
+    applies_bases = False
+    ret = None
+    for st in rest:
+        if isinstance(st, ast.Expr) and _is_call_method(st.value, 'apply_bases') and not st.value.args:  # type: ignore[attr-defined]
+            applies_bases = True
+        elif isinstance(st, ast.Return) and st.value is not None:
+            ret = st.value
+        else:
+            raise TranslateError('FGD.engine_dbase: statement not recognised: ' + ast.unparse(st)[:120])
+    if ret is None or body[-1] is not [st for st in rest if isinstance(st, ast.Return)][-1]:
+        raise TranslateError('FGD.engine_dbase: does not end with a return')
+    # the merged FGD: a local bound once to FGD() / cls()
+    tgt_names = [k for k, v in env.items() if _is(v, 'FGD()') or _is(v, 'cls()')]
+    if len(tgt_names) != 1:
+        raise TranslateError('FGD.engine_dbase: the fresh FGD that receives the entities was not found')
+    tname = tgt_names[0]
+    env_m = {k: v for k, v in env.items() if k != tname}     # the merged FGD stays a name
+    rv = _is_deepcopy(ret)
+    if not ((rv is not None and _is(rv, tname)) or _is(ret, tname)):
+        raise TranslateError('FGD.engine_dbase: does not return the merged FGD: ' + ast.unparse(ret))
+    t_ents = ast.parse(f'{tname}.entities', mode='eval').body
+    src_ents = ast.parse(f'{dv}.get_fgd().entities', mode='eval').body
+    lbody = [st for st in loop.body if not is_local_def(st)]
+
+    def classify_items(sts: list[ast.stmt], k: ast.AST, v: ast.AST) -> str:
+        """Body of `for k, v in src.entities.items()`."""
+        store = ast.parse(f'{tname}.entities[{ast.unparse(k)}] = {ast.unparse(v)}').body[0]
+        if len(sts) == 1 and _same(sts[0], store):
+            return 'last'
+        if len(sts) == 1 and isinstance(sts[0], ast.If) and not sts[0].orelse and len(sts[0].body) == 1 and _same(sts[0].body[0], store):
+            m = _norm_membership(_deref(sts[0].test, env_m))
+            if m and m[0] == 'notin' and _same(m[1], k) and _same(m[2], t_ents):
+                return 'first'
+        if (len(sts) == 2 and isinstance(sts[0], ast.If) and not sts[0].orelse and len(sts[0].body) == 1
+                and isinstance(sts[0].body[0], ast.Continue) and _same(sts[1], store)):
+            m = _norm_membership(_deref(sts[0].test, env_m))
+            if m and m[0] == 'in' and _same(m[1], k) and _same(m[2], t_ents):
+                return 'first'
+        if len(sts) == 1 and isinstance(sts[0], ast.Expr) and _same(sts[0].value, ast.parse(
+                f'{tname}.entities.setdefault({ast.unparse(k)}, {ast.unparse(v)})', mode='eval').body):
+            return 'first'
+        raise TranslateError('FGD.engine_dbase: the merge of one (classname, entity) item is not recognised: '
+                             + ' ; '.join(ast.unparse(x)[:100] for x in sts))
+    mode = None
+    if len(lbody) == 1 and isinstance(lbody[0], ast.For) and not lbody[0].orelse:
+        inner_loop = lbody[0]
+        it = _deref(inner_loop.iter, env_m)
+        if (_is_call_method(it, 'items') and not it.args and _same(it.func.value, src_ents)  # type: ignore[attr-defined]
+                and isinstance(inner_loop.target, ast.Tuple) and len(inner_loop.target.elts) == 2
+                and all(isinstance(e, ast.Name) for e in inner_loop.target.elts)):
+            k, v = inner_loop.target.elts
+            mode = classify_items([st for st in inner_loop.body if not is_local_def(st)],
+                                  ast.Name(id=k.id, ctx=ast.Load()), ast.Name(id=v.id, ctx=ast.Load()))  # type: ignore[attr-defined]
+    elif len(lbody) == 1 and isinstance(lbody[0], ast.Expr) and _is_call_method(lbody[0].value, 'update'):
+        c = _deref(lbody[0].value, env_m)
+        if _same(c.func.value, t_ents) and len(c.args) == 1 and not c.keywords and _same(c.args[0], src_ents):  # type: ignore[attr-defined]
+            mode = 'last'
+    elif len(lbody) == 1 and isinstance(lbody[0], ast.AugAssign) and isinstance(lbody[0].op, ast.BitOr):
+        if ast.unparse(lbody[0].target) == f'{tname}.entities' and _same(_deref(lbody[0].value, env_m), src_ents):
+            mode = 'last'
+    if mode is None:
+        raise TranslateError('FGD.engine_dbase: the body of the loop over the databases is not a recognised merge: '
+                             + ' ; '.join(ast.unparse(x)[:120] for x in lbody))
+    effective_first = (mode == 'first') == fwd_all
+    # ---- add_engine_database (information)
+    ad = _fn(tree, 'add_engine_database')
+    where = None
+    for n in ast.walk(ad):
+        if _is_call_method(n, 'insert') and len(n.args) == 2:  # type: ignore[attr-defined]
+            try:
+                where = 'front' if _int_expr(n.args[0], 'insert position') == 0 else 'other'  # type: ignore[attr-defined]
+            except TranslateError:
+                where = 'other'
+        elif _is_call_method(n, 'append'):
+            where = 'back'
+    return dict(first_hit=fwd, merge=mode, merge_loop_forward=fwd_all, effective_first=effective_first, single_shortcut=shortcut,
+                applies_bases=applies_bases, added_database_goes=where,
+                digests={'engine_def': ast_digest(ed), 'engine_dbase': ast_digest(eb), 'add_engine_database': ast_digest(ad)})
+
+
 # ------------------------------------------------------------------------------------------ emit
 def _nlist(xs) -> str:
     return '[' + '; '.join(str(int(x)) for x in xs) + ']%N'
@@ -847,13 +1077,14 @@ def translate() -> tuple[str, dict]:
     tw = _text_writers(fgd_tree)
     fe = _fgd_escape(fgd_tree)
     db = _engine_db()
+    md = _multi_db(fgd_tree)
     for op in (wl['loop_op'], wl['nl_op']):
         if op not in OPS:
             raise TranslateError(f'comparison operator {op} not supported')
     ef = dict(db['ef_members'])
     lines = [
         '(* GENERATED by translate/c16_fgd.py from srctools/fgd.py, _engine_db.py, tokenizer.py, const.py. Do not edit. *)',
-        'From Coq Require Import List NArith String.', 'From SV Require Import Fmt.LongString Fmt.FgdLine.',
+        'From Coq Require Import List NArith String.', 'From SV Require Import Fmt.LongString Fmt.FgdLine SM.LazyDbMulti.',
         'Import ListNotations.', 'Open Scope string_scope.',
         'Inductive cmp_op := OpGt | OpGe | OpLt | OpLe | OpEq | OpNe.',
         '(* tokenizer.ESCAPES as (symbol, character); characters escape_text() never escapes *)',
@@ -896,6 +1127,10 @@ def translate() -> tuple[str, dict]:
         '(* the block is marked as decoded before the bases loop *)',
         f'Definition lazy_via_get_ent : bool := {_b(db["lazy"]["via_get_ent"])}.',
         f'Definition lazy_mark_before_resolve : bool := {_b(db["lazy"]["mark_before_resolve"] and db["lazy"]["mark_after_decode"])}.',
+        '(* FGD.engine_dbase: a class name that is already present is kept (FirstWins) or overwritten (LastWins), seen in the order of *)',
+        '(* the database list; EntityDef.engine_def returns the first database (in that order) that knows the class *)',
+        f'Definition engine_dbase_merge : merge_mode := {"FirstWins" if md["effective_first"] else "LastWins"}.',
+        f'Definition engine_def_returns_first_hit : bool := {_b(md["first_hit"])}.',
         '(* every bit operation with an integer literal in the (un)serialisers: (function, operator, literal) *)',
         'Definition bit_ops : list (string * string * N) := [' + '; '.join(
             f'("{fn}", "{op}", {lit}%N)' for fn, ops in db['bits'].items() for op, lit, _ in ops) + '].',
@@ -903,7 +1138,7 @@ def translate() -> tuple[str, dict]:
     ]
     if wl['notfound'] < 0:
         raise TranslateError('not-found comparison value is negative')
-    side = dict(write_longstring=wl, fgd_escape=fe, text_writers=tw, tokenizer=tok_side, engine_db={k: v for k, v in db.items() if k != 'bits'},
+    side = dict(multi_db=md, write_longstring=wl, fgd_escape=fe, text_writers=tw, tokenizer=tok_side, engine_db={k: v for k, v in db.items() if k != 'bits'},
                 bit_ops=db['bits'])
     return '\n'.join(lines), side
 
